@@ -49,7 +49,7 @@ InitState(i, hs, sl) ==
            hs2 == [h \in DOMAIN hs |-> IF h \in DOMAIN r.gens
                                         THEN Append(hs[h], IF KeepSnap THEN r.gens[h] ELSE [r.gens[h] EXCEPT !.snap = <<>>])
                                         ELSE hs[h]]
-       IN InitState(i + 1, hs2, SealedNext(sl, InitDisk, DOMAIN r.gens, InitOp(i), r.exit))
+       IN InitState(i + 1, hs2, SealedNext(sl, InitDisk, DOMAIN r.gens, InitOp(i), r.exit, hs2))
 Init ==
   /\ disk = InitDisk
   /\ LET st == InitState(1, [h \in CmdRoots |-> <<>>], <<>>) IN hist = st.hist /\ sealed = st.sealed
@@ -80,6 +80,13 @@ EnvDelete(p) ==             \* a file, or an empty directory that is not a histo
   /\ disk' = Drop(p)
   /\ Log([op |-> "delete", p |-> p])
   /\ UNCHANGED <<hist, sealed, flat, last>>
+EnvDeleteTree(d) ==         \* a directory with everything below it, nested histories included
+  /\ "rmtree" \in Ops /\ d \in DOMAIN disk \cap Mutable /\ disk[d] = "DIR"
+  /\ disk' = [q \in {x \in DOMAIN disk : ~BelowEq(d, x)} |-> disk[q]]
+  /\ hist' = [h \in DOMAIN hist |-> IF BelowEq(d, h) THEN <<>> ELSE hist[h]]
+  /\ sealed' = [S \in {x \in DOMAIN sealed : ~BelowEq(d, x)} |-> sealed[S]]
+  /\ Log([op |-> "delete", p |-> d])
+  /\ UNCHANGED <<flat, last>>
 EnvMkdir(d) ==
   /\ "mkdir" \in Ops /\ d \in DirPaths \cap Mutable /\ d \notin DOMAIN disk /\ ParentExists(d)
   /\ disk' = Put(d, "DIR")
@@ -106,7 +113,7 @@ Create(R, F, nodh, dr, P) ==
   /\ LET r == TLCEval(CreateResult(hist, disk, R, F, nodh, dr, P))
          o == [op |-> "create", R |-> R, F |-> F, n |-> nodh, dr |-> dr, P |-> P]
      IN /\ hist' = IF r.abort THEN hist ELSE Commit(r)
-        /\ sealed' = SealedNext(sealed, disk, IF r.abort THEN {} ELSE DOMAIN r.gens, o, r.exit)
+        /\ sealed' = SealedNext(sealed, disk, IF r.abort THEN {} ELSE DOMAIN r.gens, o, r.exit, IF r.abort THEN hist ELSE Commit(r))
         /\ Observe(o, [exit |-> r.exit, internal |-> r.abort, missing |-> r.missing,
                        mismatch |-> r.mismatch, new |-> {}, eff |-> r.eff], IgnSet(R, r.eff))
         /\ Log(o)
@@ -118,7 +125,7 @@ CreateSF(R, F, S) ==
   /\ LET r == TLCEval(CreateSFResult(hist, disk, R, F, S))
          o == [op |-> "createsf", R |-> R, F |-> F, S |-> S]
      IN /\ hist' = IF r.abort THEN hist ELSE Commit(r)
-        /\ sealed' = SealedNext(sealed, disk, IF r.abort THEN {} ELSE DOMAIN r.gens, o, r.exit)
+        /\ sealed' = SealedNext(sealed, disk, IF r.abort THEN {} ELSE DOMAIN r.gens, o, r.exit, IF r.abort THEN hist ELSE Commit(r))
         /\ Observe(o, [exit |-> r.exit, internal |-> r.abort, missing |-> {},
                        mismatch |-> r.mismatch, new |-> {}, eff |-> r.eff], {})
         /\ Log(o)
@@ -140,11 +147,11 @@ Diff(R, P) ==
 VerifySF(R, s) ==
   /\ "verifysf" \in Ops /\ IsDir(disk, R) /\ s \in FilePaths /\ Below(R, s)
   /\ ReadOnly([op |-> "verifysf", R |-> R, S |-> s], TLCEval(VerifyResult(hist, disk, R, <<>>, s)), EffPats(hist, R, <<>>))
-VerifyDH(R) ==
+VerifyDH(R, P) ==
   /\ "verifydh" \in Ops /\ IsDir(disk, R)            \* also on a folder without history: nothing to compare, exit 0
-  /\ LET r == TLCEval(VerifyDHResult(hist, disk, R, <<>>))
-     IN ReadOnly([op |-> "verifydh", R |-> R, co |-> FALSE, h |-> ""], [exit |-> r.exit, missing |-> {}, mismatch |-> r.baddirs, new |-> {}],
-                 EffPats(hist, R, <<>>))
+  /\ LET r == TLCEval(VerifyDHResult(hist, disk, R, P))
+     IN ReadOnly([op |-> "verifydh", R |-> R, co |-> FALSE, h |-> "", P |-> P], [exit |-> r.exit, missing |-> {}, mismatch |-> r.baddirs, new |-> {}],
+                 EffPats(hist, R, P))
 
 \* flatten writes a packing list outside the tree; `flat` remembers what it holds and the tree it was made from
 FlatPats(R) == Dedup(Defaults \o EffPats(hist, R, <<>>))
@@ -186,6 +193,19 @@ InfoSF(s) ==
                        lines |-> r.lines], {})
         /\ Log(o)
   /\ UNCHANGED <<disk, hist, sealed, flat>>
+InfoSFRoot(s, R) ==          \* info -sf FILE ROOT
+  /\ "infosf" \in Ops /\ s \in DOMAIN disk /\ disk[s] # "DIR" /\ Below(R, s) /\ IsDir(disk, R)
+  /\ LET r == InfoSFResult(hist, R, s)
+         o == [op |-> "infosf", S |-> s, R |-> R]
+     IN /\ Observe(o, [exit |-> r.exit, internal |-> FALSE, missing |-> {}, mismatch |-> {}, new |-> {}, eff |-> <<>>,
+                       lines |-> r.lines], {})
+        /\ Log(o)
+  /\ UNCHANGED <<disk, hist, sealed, flat>>
+XsdCheck(R) ==               \* xsd-schema-check on the latest manifest of the history at R: valid, and read-only
+  /\ "xsdcheck" \in Ops /\ IsDir(disk, R) /\ Len(hist[R]) > 0
+  /\ Observe([op |-> "xsdcheck", R |-> R], [exit |-> 0, internal |-> FALSE, missing |-> {}, mismatch |-> {}, new |-> {}, eff |-> <<>>], {})
+  /\ Log([op |-> "xsdcheck", R |-> R])
+  /\ UNCHANGED <<disk, hist, sealed, flat>>
 HashCmd(s) ==
   /\ "hash" \in Ops /\ s \in DOMAIN disk /\ disk[s] # "DIR"
   /\ \E f \in SeqSet(Fmts) :
@@ -206,15 +226,18 @@ Next ==
   \/ /\ last.op.op = "none"
      /\ \/ \E f \in FilePaths, c \in Contents : EnvAlter(f, c)
         \/ \E p \in FilePaths \cup DirPaths : EnvDelete(p)
-        \/ \E d \in DirPaths : EnvMkdir(d)
+        \/ \E d \in DirPaths : EnvMkdir(d) \/ EnvDeleteTree(d)
         \/ \E f, g \in FilePaths : EnvRename(f, g)
         \/ \E R \in CmdRoots, F \in FmtChoices, P \in PatChoices, nodh, dr \in BOOLEAN : Create(R, F, nodh, dr, P)
         \/ \E R \in CmdRoots, F \in FmtChoices, S \in SFChoices : CreateSF(R, F, S)
         \/ \E R \in CmdRoots, P \in PatChoices : Verify(R, P) \/ Diff(R, P)
         \/ \E R \in CmdRoots, s \in FilePaths : VerifySF(R, s)
         \/ \E R \in CmdRoots : VerifyDHCO(R)
-        \/ \E R \in CmdRoots : VerifyDH(R) \/ Flatten(R) \/ VerifyPL(R) \/ Info(R)
+        \/ \E R \in CmdRoots, P \in PatChoices : VerifyDH(R, P)
+        \/ \E R \in CmdRoots : Flatten(R) \/ VerifyPL(R) \/ Info(R)
         \/ \E s \in FilePaths : InfoSF(s) \/ HashCmd(s)
+        \/ \E s \in FilePaths, R \in CmdRoots : InfoSFRoot(s, R)
+        \/ \E R \in CmdRoots : XsdCheck(R)
 
 Spec == Init /\ [][Next]_vars
 
